@@ -50,7 +50,7 @@ PRELUDE = r'''
 int vx_thrown;
 struct source_point { size32_t line; size32_t column; };
 struct match_options { bool verbose; };
-struct recognized_term { size16_t term_idx; size_t len; };
+struct recognized_term { size16_t term_idx; vx_rt_len_t len; };   /* member type from the real declaration (R16) */
 static inline struct recognized_term recognized_term__default(void) { struct recognized_term r = { uninitialized16, uninitialized16 }; return r; }
 static inline unsigned long vx_sp(struct source_point sp) { return ((unsigned long)sp.line << 32) | sp.column; }
 size16_t rl_specials[256];                  /* R3: regex_lexer::specials (meta::distinct_chars_count entries) */
@@ -67,4 +67,5 @@ static inline const char* vx_rd(const char* p) { __CPROVER_assert(__CPROVER_same
 UNIT = Unit('regex_lexer', PRELUDE, UTILS + fns, consts=PC.UNINIT)
 UNIT.facts = [r'size16_t specials\[meta::distinct_chars_count\] = \{\};', r'constexpr size_t distinct_chars_count = distinct_values_count<char>;',
               r'constexpr size_t distinct_values_count = 1 << \(sizeof\(T\) \* 8\);', PC.FACTS[-1]]
+UNIT.typedefs = PC.RT_TYPEDEFS
 apply_spec(UNIT.fns, os.path.join(os.path.dirname(os.path.abspath(__file__)), '..', 'contracts', 'regex_lexer.spec'))
